@@ -25,12 +25,95 @@ def run(ck: Check, repo: Repo) -> None:
     ck.rule("C17.3", "rollout bookkeeping: the done flag stored with step t is the one observed before step t (previous step's), and the "
                      "flag observed after the last step is handed over as next_done; fields are appended once per step in one order")
     ck.rule("C17.4", "row alignment: the six tensors indexed by one minibatch index share one flattening order of (time, agent, env)")
+    ck.rule("C17.5", "one agent order and one axis convention for a shared policy's rollout: IPPO groups every experience component in self.agent_ids "
+                     "order; the stacking helpers iterate the group's dictionary as given (no re-ordering); per-step components are stacked on axis 1 "
+                     "(time, agent, env) and the final-step components, which have no time axis, on axis 0 (agent, env)")
+    _stacking(ck, repo)
     for modname, q, depth in LEARNERS:
         fn = repo.fn(modname, q)
         _gae(ck, repo, fn, depth)
         _alignment(ck, repo, fn)
     for modname, q in LOOPS:
         _rollout(ck, repo, repo.fn(modname, q))
+
+
+# ------------------------------------------------------------------------------------------------ C17.5
+def _iter_kind(it: ast.AST, param: str) -> Optional[str]:
+    """How an iteration visits the dictionary parameter: 'as-given', 'reordered', or None when it does not iterate it."""
+    if dotted(it) == param:
+        return "as-given"
+    if isinstance(it, ast.Call) and isinstance(it.func, ast.Attribute) and dotted(it.func.value) == param and it.func.attr in ("keys", "items", "values"):
+        return "as-given"
+    if isinstance(it, ast.Call) and call_name(it) in ("sorted", "reversed", "set", "frozenset") and it.args and _iter_kind(it.args[0], param) is not None:
+        return "reordered"
+    if isinstance(it, ast.Call) and call_name(it) in ("list", "tuple", "iter", "enumerate") and it.args:
+        return _iter_kind(it.args[0], param)
+    return None
+
+
+def _stacking(ck: Check, repo: Repo) -> None:
+    AU = "agilerl.utils.algo_utils"
+    n = 0
+    for q in ("vectorize_experiences_by_agent", "concatenate_experiences_into_batches"):
+        fn = repo.fn(AU, q)
+        p0 = fn.named_params[0]
+        for x in ast.walk(fn.node):
+            its = [x.iter] if isinstance(x, ast.For) else ([g.iter for g in x.generators] if isinstance(x, (ast.ListComp, ast.DictComp, ast.GeneratorExp, ast.SetComp)) else [])
+            for it in its:
+                k = _iter_kind(it, p0)
+                if k is None:
+                    continue
+                n += 1
+                ck.ob("C17.5", fn, it, k == "as-given", f"{q}: the agents of the group are visited in the order of the dictionary handed in",
+                      detail=f"`{short(it, 60)}` visits them in another order than the sibling helper that stacks the other components: one agent's log-probs / rewards / "
+                             "values land on another agent's observations and actions (e.g. agent_10 sorts before agent_2)",
+                      construct=f"{q}: agent iteration {short(it, 50)}")
+    ck.floor("C17.5", n, 4, "iterations over the per-agent dictionary in the two stacking helpers")
+    asm = repo.fn("agilerl.algorithms.ippo", "IPPO.assemble_shared_inputs")
+    loops = [l for l in walk_no_nested(asm.node) if isinstance(l, ast.For) and any(isinstance(a, ast.Assign) and isinstance(a.targets[0], ast.Subscript) and isinstance(a.targets[0].value, ast.Subscript)
+                                                                                   for a in ast.walk(l))]
+    for lp in loops or [None]:
+        it = lp.iter if lp is not None else None
+        ok = lp is not None and (dotted(it) == "self.agent_ids" or (isinstance(it, (ast.ListComp, ast.GeneratorExp)) and dotted(it.generators[0].iter) == "self.agent_ids"))
+        ck.ob("C17.5", asm, lp if lp is not None else asm.node, ok, "IPPO.assemble_shared_inputs builds every group's dictionary in self.agent_ids order",
+              detail=f"the grouping loop runs over `{short(it, 50) if it is not None else '?'}`: each component (observations, rewards, next_state, ...) keeps the key order of its own "
+                     "dictionary, and components whose orders differ are stacked in different agent orders",
+              construct=f"IPPO.assemble_shared_inputs: grouping loop over {short(it, 50) if it is not None else '?'}")
+    li = repo.fn("agilerl.algorithms.ippo", "IPPO._learn_individual")
+    # the 8 fields of the experiences tuple by position
+    fields: List[str] = []
+    for a in walk_no_nested(li.node):
+        if isinstance(a, ast.Assign) and isinstance(a.targets[0], ast.Tuple) and len(a.targets[0].elts) == 8 and dotted(a.value) == "experiences":
+            fields = [e.id for e in a.targets[0].elts if isinstance(e, ast.Name)]
+    if len(fields) != 8:
+        raise AnalysisError("IPPO._learn_individual: the 8-field unpack of `experiences` was not found")
+    per_step, final = set(fields[2:6]), set(fields[6:8])
+    seen = set()
+    for c in calls_in(li.node, nested=True):
+        if call_name(c) == "vectorize_experiences_by_agent" and c.args and isinstance(c.args[0], ast.Name):
+            nm = c.args[0].id
+            dim = get_kw(c, "dim", 1)
+            d = const_value(dim) if dim is not None else 1
+            if nm in final:
+                seen.add(nm)
+                ck.ob("C17.5", li, c, d == 0, f"IPPO._learn_individual: the final-step component (field {fields.index(nm)}) is stacked with the agent axis leading (dim=0)",
+                      detail=f"dim={d}: per-agent arrays of shape (E,) become (E, A) and flatten environment-major, while every per-step column is agent-major: the last step of "
+                             "agent a in environment e is bootstrapped with the flag of another (agent, environment) pair",
+                      construct=f"IPPO._learn_individual: stacking axis of final-step field {fields.index(nm)}")
+            elif nm in per_step:
+                seen.add(nm)
+                ck.ob("C17.5", li, c, d == 1, f"IPPO._learn_individual: the per-step component (field {fields.index(nm)}) is stacked on axis 1 (time, agent, env)",
+                      construct=f"IPPO._learn_individual: stacking axis of per-step field {fields.index(nm)}")
+    # per-step fields stacked through map(vectorize_experiences_by_agent, (...)) use the default axis
+    for c in calls_in(li.node):
+        if call_name(c) == "map" and len(c.args) == 2 and dotted(c.args[0]) == "vectorize_experiences_by_agent" and isinstance(c.args[1], ast.Tuple):
+            for e in c.args[1].elts:
+                if isinstance(e, ast.Name):
+                    seen.add(e.id)
+                    ck.ob("C17.5", li, c, e.id in per_step, f"IPPO._learn_individual: `map` with the default axis (1) is applied to per-step components only",
+                          detail=f"field {fields.index(e.id) if e.id in fields else '?'} is stacked on the default axis 1", construct=f"IPPO._learn_individual: default-axis stacking of field {fields.index(e.id) if e.id in fields else '?'}")
+    ck.ob("C17.5", li, li.node, (per_step | final) <= seen, "IPPO._learn_individual: all six per-agent components are stacked explicitly", detail=f"stacked: {sorted(fields.index(x) for x in seen if x in fields)}",
+          construct="IPPO._learn_individual: components stacked")
 
 
 # ------------------------------------------------------------------------------------------------ C17.1 / C17.2
@@ -490,6 +573,10 @@ VARIANTS = [
     ("ppo-commuted-ok", _PPO, "rewards[t] + self.gamma * nextvalue * next_non_terminal - values[t]", "next_non_terminal * nextvalue * self.gamma + rewards[t] - values[t]", "silent", None),
     ("ppo-dones-flattened-separately", _PPO, "        experiences = (states, actions, log_probs, advantages, returns, values)\n        if is_vectorized_experiences(*experiences):\n            experiences = flatten_experiences(*experiences)",
      "        experiences = (states, actions, log_probs, advantages, returns, values)\n        if is_vectorized_experiences(*experiences):\n            experiences = flatten_experiences(*experiences[:3]) + tuple(x.reshape(-1) for x in experiences[3:])", "fire", "C17.4"),
+    ("ippo-final-flags-env-major", _IPPO, "        next_done = vectorize_experiences_by_agent(next_done, dim=0)\n", "        next_done = vectorize_experiences_by_agent(next_done)\n", "fire", "C17.5"),
+    ("ippo-group-in-dict-order", _IPPO, "        for agent_id in self.agent_ids:\n            if agent_id not in input:\n                continue\n", "        for agent_id in input:\n", "fire", "C17.5"),
+    ("stack-agents-sorted", "agilerl/utils/algo_utils.py", "            for agent_id in experiences.keys()\n        ]\n        stacked_tensor = torch.stack(tensors, dim=dim)", "            for agent_id in sorted(experiences.keys())\n        ]\n        stacked_tensor = torch.stack(tensors, dim=dim)", "fire", "C17.5"),
+    ("stack-agents-plain-dict-iteration-ok", "agilerl/utils/algo_utils.py", "            for agent_id in experiences.keys()\n        ]\n        stacked_tensor = torch.stack(tensors, dim=dim)", "            for agent_id in experiences\n        ]\n        stacked_tensor = torch.stack(tensors, dim=dim)", "silent", None),
     ("ippo-time-major-logprobs", _IPPO, "        log_probs = agent_major(log_probs)\n", "        log_probs = log_probs.reshape((-1,))\n", "fire", "C17.4"),
     ("ippo-no-mask", _IPPO, "rewards[t] + self.gamma * nextvalue * next_non_terminal - values[t]", "rewards[t] + self.gamma * nextvalue - values[t]", "fire", "C17.2"),
     ("rollout-done-after-update", _TOP, "                    dones.append(done)\n                    values.append(value)\n\n                    state = next_state\n                    done = next_done\n",
